@@ -10,7 +10,7 @@ COMMON_T = [
 
 PROPS = {
     "C01": {
-        "units": ["ident", "idna", "x509", "storage", "issue"],
+        "units": ["ident", "idna", "x509", "storage", "issue", "texts"],
         "design_ref": "DESIGN.md section 5 C01",
         "technique": "Verus function contracts: normalisation label by label, newOrder payload element by element, CSR through a ghost view of the OpenSSL request builder",
         "text": "Deductive proof that configured DNS identifiers are stored as lower-case A-labels label by label (wildcard label kept) and IP "
@@ -56,7 +56,7 @@ PROPS = {
         ],
     },
     "C11": {
-        "units": ["account", "acctproto", "acctstore"],
+        "units": ["account", "acctproto", "acctstore", "texts"],
         "design_ref": "DESIGN.md section 5 C11",
         "technique": "Verus function contracts over a ghost record of what the CA holds; signing-key preconditions on the account requests",
         "text": "Deductive proof that synchronize registers only when no account URL is stored or the external binding changed, otherwise sends at "
@@ -93,7 +93,7 @@ PROPS = {
         ],
     },
     "C14": {
-        "units": ["config", "evloop"],
+        "units": ["config", "evloop", "texts"],
         "design_ref": "DESIGN.md section 5 C14",
         "technique": "Verus function contracts: three-level getters against a 'most specific wins' spec function; include loop with ghost set of opened files",
         "text": "Deductive proof that renew_delay, random_early_renew, file_name_format and the storage directory resolve to the most "
@@ -108,7 +108,7 @@ PROPS = {
         ],
     },
     "C15": {
-        "units": ["keys"],
+        "units": ["keys", "texts"],
         "design_ref": "DESIGN.md section 5 C15",
         "technique": "Verus function contracts: JWK member maps and signature byte layout against RFC 7518 tables pinned in spec functions",
         "text": "Deductive proof that the RSA and EC JWKs have exactly the RFC 7517/7518 members (thumbprint form: the RFC 7638 member set), "
@@ -178,7 +178,7 @@ PROPS = {
         ],
     },
     "C04": {
-        "units": ["jws", "http", "keys", "issue", "acctproto"],
+        "units": ["jws", "http", "keys", "issue", "acctproto", "texts"],
         "design_ref": "DESIGN.md section 5 C04",
         "technique": "Verus function contracts: JWS structure as a spec predicate over uninterpreted base64url/serialisation/signature relations; nonce and URL binding as preconditions of the transmission",
         "text": "Deductive proof that encode_jwk/encode_kid/encode_kid_mac produce the flattened JWS of RFC 7515 with exactly the header "
@@ -193,7 +193,7 @@ PROPS = {
         ],
     },
     "C05": {
-        "units": ["chalproof", "schedule", "ident", "issue", "revdns", "keys"],
+        "units": ["chalproof", "schedule", "ident", "issue", "revdns", "keys", "texts"],
         "design_ref": "DESIGN.md section 5 C05",
         "technique": "Verus function contracts: proof strings against RFC 8555 section 8 / RFC 8737 texts pinned in the contract; entry lookup against a spec function of (identifier, wildcard flag)",
         "text": "Deductive proof that the key authorization is token.base64url(SHA-256(thumbprint input)), that http-01 / dns-01 / tls-alpn-01 "
